@@ -22,6 +22,7 @@ type replayFile struct {
 	Label   string            `json:"label"`
 	Inputs  map[string]string `json:"inputs"`
 	Choices map[string]int    `json:"choices"`
+	Fns     map[string][][2]string `json:"fns"`
 }
 
 var (
@@ -227,8 +228,34 @@ func UF(name string, n int, in []byte) []byte {
 }
 
 // Fn is an uninterpreted function (functional consistency only) of a byte string with n output bytes under the
-// engine; natively it is the same SHA-256-based expansion as UF. (intercepted)
-func Fn(name string, n int, in []byte) []byte { return UF("fn:"+name, n, in) }
+// engine; natively it returns the result the replayed model gave for this argument (replay file, "fns") and the
+// SHA-256-based expansion of UF for arguments the model did not see. (intercepted)
+func Fn(name string, n int, in []byte) []byte {
+	load()
+	key := hex.EncodeToString(in)
+	for _, p := range rf.Fns[name] {
+		if p[0] == key {
+			out, _ := hex.DecodeString(p[1])
+			if len(out) == n {
+				return out
+			}
+		}
+	}
+	return UF("fn:"+name, n, in)
+}
+
+// FnKnown returns the result the replayed model recorded for this argument of Fn, or nil. Native only.
+func FnKnown(name string, in []byte) []byte {
+	load()
+	key := hex.EncodeToString(in)
+	for _, p := range rf.Fns[name] {
+		if p[0] == key {
+			out, _ := hex.DecodeString(p[1])
+			return out
+		}
+	}
+	return nil
+}
 
 // IntMode switches the engine to the mathematical-integer encoding for this harness (must be the first
 // call). No effect natively. (intercepted)
